@@ -10,6 +10,7 @@
  * Behaviour is driven by files in $BVMON_CTL:
  *   fail_nth     integer k: the k-th logged invocation exits 1
  *   fail_match   lines; an invocation whose "name arg1 arg2 ..." starts with a line exits 1
+ *   kill_match   lines; an invocation whose "name arg1 arg2 ..." starts with a line dies from SIGKILL (after logging)
  *   hook_noise   integer N: a hook executable writes N bytes to stderr (and a few lines to stdout) before exiting
  *   fetched      marker written by a successful fetch/pull; then out/<key>.after_fetch replaces out/<key>
  *   out/<key>    canned stdout for read-only queries (key: status, tag-list, tag-merged,
@@ -24,6 +25,7 @@
 #include <sys/stat.h>
 #include <unistd.h>
 #include <fcntl.h>
+#include <signal.h>
 
 static char *buf;
 static size_t blen, bcap;
@@ -138,6 +140,22 @@ int main(int argc, char **argv) {
             free(d);
         }
     }
+    int killme = 0;
+    if (ctl) {
+        size_t n = 0;
+        snprintf(path, sizeof path, "%s/kill_match", ctl);
+        unsigned char *d = slurp(path, &n);
+        if (d) {
+            d = realloc(d, n + 1); d[n] = 0;
+            char *save = NULL;
+            for (char *ln = strtok_r((char *)d, "\n", &save); ln; ln = strtok_r(NULL, "\n", &save)) {
+                size_t l = strlen(ln);
+                if (l && strncmp(joined, ln, l) == 0 && (joined[l] == 0 || joined[l] == ' ')) killme = 1;
+            }
+            free(d);
+        }
+    }
+    if (killme) fail = 1;   /* a killed invocation is a failed one: logged with a non-zero exit */
 
     /* canned stdout */
     const char *key = NULL;
@@ -239,6 +257,7 @@ int main(int argc, char **argv) {
         int fd = open(log, O_WRONLY | O_APPEND | O_CREAT, 0644);
         if (fd >= 0) { if (write(fd, buf, blen) < 0) {} close(fd); }
     }
+    if (killme) { fflush(NULL); raise(SIGKILL); }
     if (fail) fprintf(stderr, "fake %s: injected failure\n", name);
     return exitcode;
 }
